@@ -566,7 +566,8 @@ def r4_r5(ctx):
         e_aad = canon(p.operand(t.args[3]))
         # find the Vec local written by extend_from_slice whose initial value equals e_aad
         cands = [base_local(b, t.args[3].place.local)] if t.args[3].place is not None else []
-        if len(cands) != 1 or not b.local_name(cands[0]):
+        direct_lib = e_aad[0] == "call" and e_aad[1].endswith("packet::Packet::authenticated_data")
+        if len(cands) != 1 or not (b.local_name(cands[0]) or direct_lib):
             raise AnchorError("Session::%s: the local holding the associated data was not identified" % fn)
         ws = writes_into(b, p, cands[0])
         init = F(p.local(cands[0]))
